@@ -178,9 +178,41 @@ impl Property for C06 {
             }
             Ok(Dealt { x, ys, bytes, via_gen })
         };
-        for _ in 0..t + 1 {
+        // the FIRST pull from the fresh dealer may go through an iterator adaptor as well
+        {
+            let first = match ctx.ch.draw(6) {
+                0 => evaluator.nth(0),
+                1 => evaluator.by_ref().step_by(2).next(),
+                2 => evaluator.by_ref().skip(1).next(),
+                3 => evaluator.by_ref().take(1).last(),
+                _ => evaluator.next(),
+            };
+            dealt.push(take(first.expect("iterator is endless"), false)?);
+        }
+        // then plain next() until t+1 DISTINCT points are there for the inference
+        let mut guard = 0;
+        while dealt.iter().map(|d| d.x.clone()).collect::<std::collections::BTreeSet<_>>().len() < t + 1 {
             let sh = evaluator.next().expect("iterator is endless");
             dealt.push(take(sh, false)?);
+            guard += 1;
+            if guard > t + 8 {
+                return Err(Violation::new("c06.eval", "iterator_stuck", "the sequential dealer keeps returning shares at x values it already handed out"));
+            }
+        }
+        {
+            // inference uses the first t+1 distinct points: move them to the front
+            let mut seen = std::collections::BTreeSet::new();
+            let mut front = Vec::new();
+            let mut rest = Vec::new();
+            for d in dealt.drain(..) {
+                if front.len() < t + 1 && seen.insert(d.x.clone()) {
+                    front.push(d);
+                } else {
+                    rest.push(d);
+                }
+            }
+            front.extend(rest);
+            dealt = front;
         }
         let n_more = ctx.ch.index(t + 4);
         for _ in 0..n_more {
@@ -189,8 +221,19 @@ impl Property for C06 {
                 dealt.push(take(sh, true)?);
                 ctx.stats.probe("shares_via_gen");
             } else {
-                let sh = evaluator.next().unwrap();
-                dealt.push(take(sh, false)?);
+                // the sequential dealer is an Iterator: shares may be pulled through its adaptors
+                let sh = match ctx.ch.draw(5) {
+                    0 => evaluator.nth(0),
+                    1 => {
+                        let k = ctx.ch.index(4);
+                        evaluator.nth(k)
+                    }
+                    2 => evaluator.by_ref().skip(1 + ctx.ch.index(3)).next(),
+                    3 => evaluator.by_ref().step_by(2).nth(1),
+                    _ => evaluator.next(),
+                };
+                ctx.stats.probe("shares_via_iterator_adaptors");
+                dealt.push(take(sh.expect("iterator is endless"), false)?);
             }
         }
         // ---- infer the polynomials from the first t+1 shares
